@@ -153,5 +153,7 @@ InvProt == Go =>
        (sb # <<>> /\ AllSteps[i].ev # "encode") => Contains(sb, BstrOf(Slot)) \/ st.pos \in {"sign-signer2", "sign-signer1-detached"}
   /\ PrintT(ToJson([kind |-> "session", props |-> <<"C02">>, steps |-> AllSteps, nt |-> TRUE,
                     expect |-> [i \in 1..Len(obs) |-> [kind |-> obs[i].kind, err |-> obs[i].err, bytes |-> obs[i].bytes, cb |-> obs[i].cb,
-                                                      ret |-> obs[i].ret, val |-> obs[i].val, judge |-> TRUE, slotfree |-> FALSE, pinerr |-> FALSE]]]))
+                                                      ret |-> obs[i].ret, val |-> obs[i].val, judge |-> TRUE, slotfree |-> FALSE, pinerr |-> FALSE,
+                                                      (* of a structure C02 owns the protected slots; its other slots are C03-C05's *)
+                                                      protonly |-> (AllSteps[i].ev \in {"tbs", "verify", "struct"})]]]))
 =============================================================================
